@@ -292,6 +292,8 @@ def run_history(sess, rng, fam, oracle, max_steps=None):
         choices.append(("persist", fam["w_persist"]))
         choices.append(("render", fam["w_render"]))
         choices.append(("malformed", fam["w_malformed"]))
+        if fam.get("w_query"):
+            choices.append(("query", fam["w_query"]))
         if st in COMPLETED and not (fam.get("rerun_only_when_idle") and sess.inflight):
             choices.append(("rerun", fam["w_rerun"]))
         total = sum(w for _, w in choices)
@@ -323,6 +325,9 @@ def run_history(sess, rng, fam, oracle, max_steps=None):
                 sess.request(rng.choice(["resuming", "running"]))
             else:
                 sess.request(rng.choice(CTRL))
+        elif name == "query":
+            sess.call(["get_next"], "query1")
+            sess.call(["get_next"], "query2")
         elif name == "persist":
             sess.persist()
         elif name == "render":
